@@ -85,7 +85,9 @@ def r11_2(ctx):
             raw_name = tl[0] == 'sym' and tl[1] in ('fld', 'param') and any(VAL[s_][0] == 'sym' and VAL[s_][1] == 'param' for s_ in values.subs(leaf))
             validated = 'KeyNameValidated' in T.tags(leaf)
             return (raw_name or validated) and bool(shard_ids_in(d))
-        probes = [e for e in q.prim_edges('probe') if is_key_probe(q.E[e][2])]
+        after_pub = q.reach_fwd([q.E[e][1] for e in pubs])
+        # the existence probe that chooses the shard: a key probe made before anything was published
+        probes = [e for e in q.prim_edges('probe') if is_key_probe(q.E[e][2]) and q.E[e][0] not in after_pub]
         bad = q.must_precede(probes, pubs)
         out.append(inst('R11.2', p + '|probe precedes publish', bool(probes) and not bad,
                         'the other candidate shard is probed for the key before every publish (%d publish events)' % len(pubs) if probes and not bad else
@@ -122,7 +124,7 @@ def r11_2(ctx):
 
 def r11_3(ctx):
     out = []
-    for p, cls in (('sharded::Cache::get', 'open_ro'), ('sharded::Cache::touch', 'meta_atime')):
+    for p, cls in (('sharded::Cache::get', {'open_ro', 'open_rw'}), ('sharded::Cache::touch', {'meta_atime', 'meta_times', 'meta_times_h'})):
         q = ctx.explore(ctx.key_of(p))
         E = q.prim_edges(cls)
         groups = {}
